@@ -507,6 +507,39 @@ func TestVerifC05AppFlap(t *testing.T) {
 	s.explore(t)
 }
 
+// C05 with an alert that was muted across a notification of its group: the log entry of that notification does not
+// list it at all. When the mute ends and the alert resolves, the receiver - which was told it is firing earlier -
+// is still owed the resolution.
+func TestVerifC05AppMuted(t *testing.T) {
+	fInit(t)
+	c := fMon1()
+	s := &fScenario{prop: "C05", part: "app-muted-across-a-notification", yaml: fYAML1, integs: fIntegs1, mon: c, fo: defaultFOpts(), rt: time.Minute,
+		tail: 3 * time.Minute, depthQ: 4, depthT: 6, monitors: stdMonitors(c),
+		events: []fEvent{
+			{"fire A1 (end+1h)", func(x *fx) bool { x.fire("A1", "1", time.Hour); return true }},
+			{"fire A2 (same group, end+1h)", func(x *fx) bool { x.fire("A2", "1", time.Hour); return true }},
+			{"resolve A1", func(x *fx) bool {
+				if _, ok := x.gt.alerts["A1"]; !ok {
+					return false
+				}
+				x.resolve("A1", "1")
+				return true
+			}},
+			{"silence A1; A2 fires and the group is notified without A1 (31s); the silence on A1 is expired", func(x *fx) bool {
+				if !x.silence("A1", true) {
+					return false
+				}
+				x.fire("A2", "1", time.Hour)
+				time.Sleep(31 * time.Second)
+				return x.silence("A1", false)
+			}},
+			{"silence A1", func(x *fx) bool { return x.silence("A1", true) }},
+			{"expire silence A1", func(x *fx) bool { return x.silence("A1", false) }},
+			evAdvance(10 * time.Second), evAdvance(31 * time.Second),
+		}}
+	s.explore(t)
+}
+
 // checkStatusAPI (C02 / C03): after an event the API reports every alert's suppression status as the ground truth has it.
 func (x *fx) checkStatusAPI() *violation {
 	t := x.now()
@@ -596,6 +629,12 @@ func TestVerifC03App(t *testing.T) {
 				return true
 			}},
 			{"reload", func(x *fx) bool { x.reload(); return true }},
+			{"reload, 50s later (an alert-provider GC tick in between) reload again", func(x *fx) bool {
+				x.reload()
+				time.Sleep(50 * time.Second)
+				x.reload()
+				return true
+			}},
 			evAdvance(9 * time.Second), evAdvance(10 * time.Second), evAdvance(31 * time.Second), evAdvance(50 * time.Second),
 		}}
 	s.explore(t)
